@@ -101,6 +101,31 @@ def float_pass(ctx, n, rng):
         ctx.violation("monitor", "reinflate(compress(M)) != M", {"n": n, "v_hex": [float(x).hex() for x in v]})
 
 
+def definition_pass(ctx, n):
+    """the statement itself on matrices with pairwise distinct entries, for one size n (independent of the model):
+    compress = row-major upper triangle, reinflate = the symmetric matrix with that upper triangle, both round trips"""
+    from fast_ticc import matrix_compression as mc
+    m = n * (n + 1) // 2
+    v = np.arange(1, m + 1, dtype=np.float64) * 3.0 + 0.5
+    want = np.zeros((n, n))
+    k = 0
+    for r in range(n):
+        want[r, r:] = v[k:k + n - r]
+        want[r:, r] = v[k:k + n - r]
+        k += n - r
+    M = mc.reinflate_matrix(v)
+    if M.shape != (n, n) or not np.array_equal(M, want):
+        bad = np.argwhere(M != want)[:1].tolist() if M.shape == (n, n) else M.shape
+        ctx.violation("monitor", "reinflate_matrix: entry %s of the %d x %d matrix is not the row-major upper-triangle element it should be" % (bad, n, n), {"n": n, "what": "reinflate"})
+        return
+    c = mc.compress_matrix(want)
+    if c.shape != v.shape or not np.array_equal(c, v):
+        ctx.violation("monitor", "compress_matrix does not return the upper triangle in row-major order for n = %d" % n, {"n": n, "what": "compress"})
+    rows, cols = mc._upper_triangle_indices(n)
+    if len(rows) != m or any(int(a) != int(b) for a, b in zip(rows[:n], [0] * n)) or (n and (int(rows[-1]), int(cols[-1])) != (n - 1, n - 1)):
+        ctx.violation("monitor", "upper-triangle index lists are wrong for n = %d" % n, {"n": n, "what": "triu"})
+
+
 def direct_checks(ctx, N, W):
     """the statement itself on the implementation's lists (independent of the model)"""
     from fast_ticc.admm import unique_values as uv
@@ -145,11 +170,19 @@ def run(ctx):
             if phase == "cold":
                 clear_caches()
             cur = {"triu": [], "compress": [], "reinflate": [], "classes": []}
+            if phase == "cold":
+                # every size of the property's domain (and sizes around the limits of narrow integer types), definition level
+                for n in list(range(0, 151)) + [200, 254, 255, 256, 257, 300]:
+                    with ctx.guard("compress / reinflate", {"n": n, "phase": "definition pass"}):
+                        definition_pass(ctx, n)
+                    ctx.count("n-definition")
             for n in ns:
+                for key, fn in (("triu", impl_triu), ("compress", impl_compress), ("reinflate", impl_reinflate)):
+                    val = -1
+                    with ctx.guard("index maps", {"n": n, "phase": phase, "what": key}):
+                        val = fn(n)
+                    cur[key].append(val)
                 with ctx.guard("index maps", {"n": n, "phase": phase}):
-                    cur["triu"].append(impl_triu(n))
-                    cur["compress"].append(impl_compress(n))
-                    cur["reinflate"].append(impl_reinflate(n))
                     if phase == "cold" and n >= 1:
                         float_pass(ctx, n, rng)
                 ctx.count("n")
